@@ -121,7 +121,7 @@ def finish(prop, tier, results, canary_results, explanation, assumptions, t0, fa
     canary_ok = True
     for cr in canary_results:
         fired = len(cr["fired"])
-        ok = fired >= cr["expect_min"]
+        ok = fired >= cr["expect_min"] and not any(n in k for n in cr.get("expect_absent", []) for k in cr["fired"])
         canary_ok &= ok
         canary_rows.append(
             {"rule": cr["rule"], "fired": fired, "expected_min": cr["expect_min"], "ok": ok,
